@@ -233,6 +233,13 @@ SHALLOW = {
     'Callable[[int],str]': (cabc.Callable[[int], str], cabc.Callable),
     'Callable[...,Any]': (typing.Callable[..., Any], cabc.Callable),
     'Callable[...,object]': (typing.Callable[..., object], cabc.Callable),
+    'Callable': (cabc.Callable, cabc.Callable),
+    'Callable[[],int]': (cabc.Callable[[], int], cabc.Callable),
+    'Callable[...,int]': (typing.Callable[..., int], cabc.Callable),
+    'Callable[[int,str],bool]': (typing.Callable[[int, str], bool], cabc.Callable),
+    'Callable[[VBase],VDerived]': (cabc.Callable[[VBase], VDerived], cabc.Callable),
+    'Callable[[VDerived],VBase]': (typing.Callable[[VDerived], VBase], cabc.Callable),
+    'Callable[...,VBase]': (cabc.Callable[..., VBase], cabc.Callable),
     'Hashable': (cabc.Hashable, cabc.Hashable),
     'Sized': (cabc.Sized, cabc.Sized),
     'ItemsView[str,int]': (cabc.ItemsView[str, int], cabc.ItemsView),
@@ -692,7 +699,7 @@ def hashable_node(node):
     if k == 'reit':
         return node[1] in ('frozenset', 'FrozenSet') and hashable_node(node[2])
     if k == 'shallow':
-        return node[1] in ('Hashable', 'Callable[[int],str]', 'Callable[...,Any]', 'Callable[...,object]', 'VBox[int]')
+        return node[1] in ('Hashable', 'VBox[int]') or node[1].startswith('Callable')
     return False
 
 
